@@ -1,5 +1,6 @@
 """C02 - one note event per tick; lanes are exactly the lanes written."""
 from vf.runner import Ob
+from .common import _sync_section, _two_maps, _e2e  # noqa: F401
 from .common import *  # noqa: F401,F403
 
 LEVEL = "model_checking"
@@ -40,6 +41,7 @@ def obligations(tier):
                       bounds="token lines with symbolic ticks/lengths, S/E/garbage lines interleaved, full reference oracle"))
     obs.append(Ob("C02.framing", "CH", "harness.h_chart", "framing", 300, funcs=("chartparse.chart.Chart._partition_lines_by_data_section",),
                   bounds="3 sections x <=2 symbolic body lines of any length (blank lines included): each section parser receives exactly its own body lines, so no note line is lost to a neighbouring section"))
+    obs += _e2e("C02", [0])
     return obs
 
 
